@@ -9,11 +9,12 @@ case $V in
  dbg) F="-O1 -DMI_DEBUG=3";;
  sec) F="-O2 -DNDEBUG -DMI_SECURE=4";;
  asan) F="-O1 -DNDEBUG -DMI_BUILD_RELEASE -fsanitize=address -fno-omit-frame-pointer"; L="-fsanitize=address";;
+ tsan) F="-O1 -DNDEBUG -DMI_BUILD_RELEASE -DMI_TSAN=1 -fsanitize=thread -fno-omit-frame-pointer"; L="-fsanitize=thread";;
  *) echo "unknown variant $V" >&2; exit 2;;
 esac
 W="-Wall -Wno-unused-function -Wno-unused-variable -Wno-unknown-pragmas -Wno-format-truncation"
 set -e
-gcc -std=gnu11 -g -O2 $W -I$D/engine -c $D/engine/vf_os.c -o $OUT.os.o
+gcc -std=gnu11 -g -O2 -fno-tree-loop-distribute-patterns $W -I$D/engine -c $D/engine/vf_os.c -o $OUT.os.o
 gcc -std=gnu11 -g -O2 $W -I$D/engine -c $D/engine/vf_sched.c -o $OUT.sched.o
 gcc -std=gnu11 -g $F $W -ftls-model=initial-exec -fno-builtin-malloc -I$REPO/include -I$REPO -I$REPO/src -I$D/engine -include $D/engine/verif_pre.h -DVF_VARIANT=\"$V\" -DVF_HARNESS=\"$(basename $SRC .c)\" "$@" -c $SRC -o $OUT.o
 gcc -g $L $OUT.o $OUT.os.o $OUT.sched.o -o $OUT -lpthread -rdynamic
